@@ -294,6 +294,7 @@ func main() {
 		base = os.TempDir()
 	}
 	scratch, err = os.MkdirTemp(base, "verif-c18-")
+	ev.AtExit(func() { os.RemoveAll(scratch) })
 	if err != nil {
 		panic(err)
 	}
